@@ -163,6 +163,11 @@ fn wellformed(catalog: &risinglight::catalog::RootCatalogRef, plan: &RecExpr) ->
             let node = &eg[id].nodes[0];
             match node {
                 Column(c) => return Err((format!("ref-not-in-input:{what}"), format!("column {c} used by {what} is not produced by its input"))),
+                // an aggregate call that the input does not produce: only the aggregation
+                // operators evaluate those (their own list is checked as "agg")
+                RowCount | Count(_) | CountDistinct(_) | Sum(_) | Min(_) | Max(_) | First(_) | Last(_) if what != "agg" => {
+                    return Err((format!("agg-call-outside-aggregation:{what}"), format!("aggregate call {node} used by {what} is not produced by its input")));
+                }
                 n if is_plan(n) => {} // a sub-plan (should not occur inside expressions at this point)
                 n => stack.extend(n.children().iter().cloned()),
             }
